@@ -45,6 +45,49 @@ def expected(op, n, extra=None):
     return None
 
 
+PROBES = [("tuple constructor", "pub fn p() -> typeshare::U53 { typeshare::U53(u64::MAX) }"),
+          ("tuple constructor (I54)", "pub fn p() -> typeshare::I54 { typeshare::I54(i64::MIN) }"),
+          ("field write", "pub fn p(mut v: typeshare::U53) -> typeshare::U53 { v.0 += 1; v }"),
+          ("field read", "pub fn p(v: typeshare::I54) -> i64 { v.0 }"),
+          ("struct literal", "pub fn p() -> typeshare::U53 { typeshare::U53 { 0: 1 << 60 } }"),
+          ("pattern", "pub fn p(v: typeshare::U53) -> u64 { let typeshare::U53(x) = v; x }"),
+          ("transmute-free const", "pub const BIG: typeshare::U53 = typeshare::U53(u64::MAX);")]
+CONTROL = "pub fn p() -> Option<typeshare::U53> { typeshare::U53::try_from(5u64).ok() }"
+
+
+def encapsulation_part(check):
+    """"hold exactly the JavaScript-safe integers" also needs that no value can be *made* outside the checked constructors: code in
+    another crate that builds, reads or writes the wrapped integer directly must not compile (a control probe that uses
+    `try_from` must)"""
+    import fcntl
+    with Scratch() as sc:
+        sc.write("crate/Cargo.toml", '[package]\nname = "c18probe"\nversion = "0.1.0"\nedition = "2021"\n\n[workspace]\n\n[dependencies]\n'
+                 'typeshare = { path = "%s/lib" }\n' % REPO)
+        shutil.copyfile(os.path.join(REPO, "Cargo.lock"), sc.path("crate/Cargo.lock"))
+        lock = open(os.path.join(BUILD, "cargo-c19.lock"), "w")
+        fcntl.flock(lock, fcntl.LOCK_EX)
+        try:
+            def builds(code):
+                sc.write("crate/src/lib.rs", "#![allow(unused)]\n" + code + "\n")
+                p = subprocess.run(["cargo", "check", "--offline", "--target-dir", os.path.join(BUILD, "target-c19")], cwd=sc.path("crate"),
+                                   env=ENV, stdout=subprocess.PIPE, stderr=subprocess.STDOUT, text=True)
+                return p.returncode == 0, p.stdout
+            ok, out = builds(CONTROL)
+            if not ok:
+                raise InfraError("C18 probe crate: the control probe does not build:\n" + out[-2000:])
+            for name, code in PROBES:
+                ok, out = builds(code)
+                check.saw(("encapsulation", name), nontrivial=True)
+                check.count("encapsulation-probe")
+                if ok:
+                    check.violation("a crate outside typeshare can use the %s of U53 / I54: `%s` compiles, so values outside the JavaScript-safe "
+                                    "range can be made without passing a range check" % (name, code), case={"probe": code}, impl={"rustc": "accepted"},
+                                    failing_input=True)
+                    return
+        finally:
+            lock.close()
+
+
 def run(check):
     check.rule = ("values within 2^%d of 0, of ±2^k (k≤64), of ±(2^53-1) and of the u64/i64 extremes, "
                   "exhaustively, plus seeded random draws stratified by bit length; every constructor / "
@@ -153,6 +196,8 @@ def run(check):
     if not check.samples:
         check.sample({"op": meta[0][0], "n": meta[0][1], "model": mans[0], "impl": rans[0]})
     check.exhaustive = False
+    if not check.has_failing():
+        encapsulation_part(check)
     check.assumptions += ["u64/i64 are modelled as Int restricted to their ranges; `as` casts as reduction modulo 2^bits",
                           "serde_json number parsing is exercised through the real crate, modelled as 'needs a u64/i64 first'",
                           "f64 conversion modelled as round-to-nearest-even to 53 significant bits"]
